@@ -11,7 +11,7 @@ for name in "$@"; do
   git -C /repo worktree add -q -f --detach $wt HEAD || { echo "$name worktree-failed"; continue; }
   if git -C $wt apply /verif/seeded/$name/patch.diff 2>/dev/null; then
     applies=true
-    out=$(PGV_REPO=$wt PGV_NO_EVIDENCE=1 ./check $pid quick 2>&1 | grep -E "^$pid|VIOLATION|HARNESS" | head -6)
+    out=$(PGV_REPO=$wt PGV_NO_EVIDENCE=1 ./check $pid quick 2>&1 | grep -E "^$pid|VIOLATION|HARNESS|signature=" | cut -c1-300 | head -8)
   else
     applies=false; out=""
   fi
